@@ -100,6 +100,9 @@ type Plan struct {
 	InitDup  int  `json:"init_dup,omitempty"`
 	Big      bool `json:"big,omitempty"`  // endpoint lists of up to 40 names
 	Tick     bool `json:"tick,omitempty"` // the clock moves 1 ns with every reading
+	// WallSteps: clock readings carry a monotonic part and the wall clock is stepped
+	// (NTP corrections, VM resume) by some of the advance operations
+	WallSteps bool `json:"wall_steps,omitempty"`
 	Scribble int  `json:"scribble,omitempty"`
 	Ops      []Op `json:"ops"`
 }
@@ -164,6 +167,7 @@ func Generate(r *rand.Rand, profile string, concurrent bool) *Plan {
 		p.Strategy = r.IntN(6) // 0 random walk, 1-3 PCT depth, 4-5 one long stall
 	}
 	p.Tick = r.IntN(3) == 0
+	p.WallSteps = !concurrent && r.IntN(4) == 0
 	if !concurrent && r.IntN(3) == 0 {
 		p.Alias = true
 		p.Scribble = r.IntN(3) // 0 never
@@ -873,6 +877,9 @@ func (s *sim) run(src *simkit.Source, logOn bool) {
 	if s.plan.Tick {
 		k.TickNs = 1
 	}
+	if s.plan.WallSteps {
+		k.MonoTimes = true
+	}
 	s.k = k
 	k.Install()
 	defer k.Uninstall()
@@ -1013,6 +1020,13 @@ func (s *sim) exec(o Op) {
 			d = 0
 		}
 		s.res.Count("op:advance", 1)
+		if s.plan.WallSteps && o.ID%3 == 0 {
+			// the wall clock is stepped, back or forth, by seconds to hours; the
+			// monotonic clock (the time that really passes) is not
+			step := []time.Duration{-time.Second, -90 * time.Second, -2 * time.Hour, 30 * time.Second, 3 * time.Hour}[o.ID%5]
+			s.k.WallSkew += step
+			s.res.Count("fault:wall_clock_step", 1)
+		}
 		if o.Hold {
 			held := s.k.AdvanceHold(d)
 			s.held = append(s.held, held...)
